@@ -31,11 +31,27 @@ BOUND = {k: v + "; plus: " + 'other row kinds and two-list forms of C07 with a t
 
 def blocks(tier):
     # C07's corpus blocks check its own invariant only (there is no written-text model of arbitrary workbooks here)
-    return (b for b in C07.blocks(tier) if b[0] != "corpus")
+    yield from (b for b in C07.blocks(tier) if b[0] != "corpus")
+    yield ("loop",)
+
+
+LOOP_LANGS = [("en", "fr"), ("en",), ("fr", "en", "de")]
+LOOP_CELLS = ["label", "hint"]  # (placeholders in a translated constraint_message are left as written by the pinned tree: legacy corner, not judged)
 
 
 
 def expand(block, tier):
+    if block[0] == "loop":
+        # legacy loops over a translated list: %(label)s / %(name)s in the translated cells of a looped row are filled in per copy and per language
+        import itertools
+
+        for langs in LOOP_LANGS:
+            for nch in (1, 2, 3):
+                for r in (1, 2, 3):
+                    for cells in itertools.combinations(LOOP_CELLS, r):
+                        for ph in ("label", "name", "both"):
+                            yield {"loop": {"langs": list(langs), "n": nch, "cells": list(cells), "ph": ph}, "dl": None, "cells": [], "delim": "::", "arg": False}
+        return
     n = 0
     for case in C07.expand(block, tier):
         n += 1
@@ -133,7 +149,50 @@ def check_free(case):
     return {"outcome": "ok", "nt": bool(cells) and not viol, "viol": viol[:3], "tr": ntr}
 
 
+def check_loop(case):
+    lp = case["loop"]
+    langs = lp["langs"]
+    names = ["x", "y", "z"][:lp["n"]]
+    choices = [{"list_name": "c", "name": n_, **{f"label::{L}": f"{n_.upper()}-{L}" for L in langs}} for n_ in names]
+    ph = {"label": "%(label)s", "name": "%(name)s", "both": "%(label)s / %(name)s"}[lp["ph"]]
+    q = {"type": "integer", "name": "k", "constraint": ". > 0"}
+    for c in ("label", *[c_ for c_ in lp["cells"] if c_ != "label"]):
+        for L in langs:
+            q[f"{c}::{L}"] = f"{c}.{L} {ph} end" if c in lp["cells"] else f"{c}.{L}"
+    wb = {"survey": [{"type": "begin loop over c", "name": "w", **{f"label::{L}": f"W-{L}" for L in langs}}, q, {"type": "end loop"}], "choices": choices}
+    out = run_convert(wb)
+    ntr = 3 + len(choices)
+    if out.kind != "ok":
+        return {"outcome": out.kind, "nt": False, "viol": [], "tr": ntr, "unexp": out.kind == "reject", "why": (out.msg or "")[:160]}
+    obs = O.Obs(out.xform)
+    itx = {}
+    for lang, d, texts in obs.itext:
+        tab = itx.setdefault(lang, {})
+        for tid, vals in texts:
+            tab[tid] = {form: el for form, el in vals}
+    viol = []
+    for n_ in names:
+        kp = f"/data/w/{n_}/k"
+        ctrl = next((el for el, tag, ref, anc in obs.body_controls() if ref == kp), None)
+        b = obs.bind_map().get(kp, [None])[0]
+        for c in lp["cells"]:
+            if c == "constraint_message":
+                tid = O.itext_id(b.get(O.J + "constraintMsg")) if b is not None else None
+            else:
+                el = ctrl.find(O.X + c) if ctrl is not None else None
+                tid = O.itext_id(el.get("ref")) if el is not None else None
+            for L in langs:
+                want = f"{c}.{L} " + {"label": f"{n_.upper()}-{L}", "name": n_, "both": f"{n_.upper()}-{L} / {n_}"}[lp["ph"]] + " end"
+                e = itx.get(L, {}).get(tid, {}).get(None) if tid else None
+                got = None if e is None else grid.render_value(e)
+                if got != want:
+                    viol.append((f"loop-copy-shown:{c}:{lp['ph']}", f"copy for choice {n_!r} [{L}]: shown {got!r} want {want!r}"))
+    return {"outcome": "ok", "nt": len(langs) > 1 and not viol, "viol": viol[:3], "tr": ntr}
+
+
 def check_one(case):
+    if case.get("loop"):
+        return check_loop(case)
     if case.get("api"):
         return {"outcome": "ok", "nt": False, "viol": [], "tr": 1}  # C07's sub-space
     if case.get("free"):
